@@ -241,6 +241,30 @@ impl C16 {
         out.fail(env, viol("limit", "yearly_fortune", case, &k, format!("{} fortune {}", desc, j), format!("{:?}", exp), format!("{:?}", fv)));
       }
     }
+    // the lunar-year accessors count calendar years from the lunar year of the birth date in the same way
+    if ge.0 + 29 <= 9998 {
+      if let Ok((by, ey, dec, yf, lim_g, df_cl, f_cl)) = guard(|| {
+        let cl = ChildLimit::from_solar_time(bt, gender);
+        let df = cl.get_start_decade_fortune();
+        let f = cl.get_start_fortune();
+        (
+          bt.get_lunar_hour().get_year() as i64,
+          cl.get_end_lunar_year().get_year() as i64,
+          (0..3).map(|j| { let d = df.next(j); (d.get_start_lunar_year().get_year() as i64, d.get_end_lunar_year().get_year() as i64) }).collect::<Vec<_>>(),
+          (0..3).map(|j| f.next(j).get_lunar_year().get_year() as i64).collect::<Vec<_>>(),
+          cl.get_gender() == gender,
+          ymdhms(&df.get_child_limit().get_end_time()),
+          ymdhms(&f.get_child_limit().get_end_time()),
+        )
+      }) {
+        let e0 = by + ge.0 - y;
+        let exp_dec: Vec<(i64, i64)> = (0..3).map(|j| (e0 + 10 * j, e0 + 10 * j + 9)).collect();
+        let exp_yf: Vec<i64> = (0..3).map(|j| e0 + j).collect();
+        if ey != e0 || dec != exp_dec || yf != exp_yf || !lim_g || df_cl != ge || f_cl != ge {
+          out.fail(env, viol("limit", "lunar_year_accessors", case, &k, desc.clone(), format!("end lunar year {} decades {:?} fortunes {:?}, gender and child limit handed back unchanged", e0, exp_dec, exp_yf), format!("end lunar year {} decades {:?} fortunes {:?} gender kept {} limit end via decade {} via fortune {}", ey, dec, yf, lim_g, fmt_time(df_cl), fmt_time(f_cl))));
+        }
+      }
+    }
   }
 
   /// a = [date index, second of day, forward (0/1), provider 0..3]: the four strategies called directly
